@@ -167,7 +167,7 @@ Definition push_current (s : st) : st :=
 Definition step_item (s : st) (ln : Z) (it : lexitem) : st :=
   match it with
   | LHeader id =>
-      {| s_id := Some id; s_remarks := s_remarks s; s_cell := s_cell s; s_sym := s_sym s; s_models := s_models s; s_cur_num := s_cur_num s;
+      {| s_id := Some (trim id); s_remarks := s_remarks s; s_cell := s_cell s; s_sym := s_sym s; s_models := s_models s; s_cur_num := s_cur_num s;
          s_cur := s_cur s; s_dbrefs := s_dbrefs s; s_mods := s_mods s; s_bonds := s_bonds s; s_scale := s_scale s; s_origx := s_origx s;
          s_mtrix := s_mtrix s; s_last_res := s_last_res s; s_res_add := s_res_add s; s_last_atom := s_last_atom s; s_atom_add := s_atom_add s;
          s_chain_letter := s_chain_letter s; s_next_id := s_next_id s; s_errors := s_errors s; s_stop := s_stop s |}
